@@ -735,11 +735,53 @@ class _Exec(object):
             return out
         if isinstance(s, (ast.For, ast.While)):
             env = dict(st.env)
+            extra_conds = ()
+            # names written in the loop only by augmented assignment keep their None-ness: None stays None (x += 1 would
+            # raise), anything else never becomes None
+            aug_only = set()
+            plain = set()
+            for st2 in s.body + s.orelse:
+                for n2 in ast.walk(st2):
+                    if isinstance(n2, ast.AugAssign) and isinstance(n2.target, ast.Name):
+                        aug_only.add(n2.target.id)
+                    elif isinstance(n2, ast.Name) and isinstance(n2.ctx, (ast.Store, ast.Del)):
+                        par = None
+                        plain.add(n2.id)
+            # (the Store context of an AugAssign target is also seen by the second clause: separate them)
+            plain_assigned = set()
+            for st2 in s.body + s.orelse:
+                for n2 in ast.walk(st2):
+                    if isinstance(n2, (ast.Assign, ast.AnnAssign, ast.For, ast.comprehension, ast.With, ast.NamedExpr, ast.ExceptHandler, ast.Delete)):
+                        tg2 = []
+                        if isinstance(n2, ast.Assign):
+                            tg2 = n2.targets
+                        elif isinstance(n2, (ast.AnnAssign, ast.For, ast.comprehension, ast.NamedExpr)):
+                            tg2 = [n2.target]
+                        elif isinstance(n2, ast.Delete):
+                            tg2 = n2.targets
+                        elif isinstance(n2, ast.With):
+                            tg2 = [i2.optional_vars for i2 in n2.items if i2.optional_vars is not None]
+                        elif isinstance(n2, ast.ExceptHandler) and n2.name:
+                            plain_assigned.add(n2.name)
+                        for t2 in tg2:
+                            for x2 in ast.walk(t2):
+                                if isinstance(x2, ast.Name):
+                                    plain_assigned.add(x2.id)
+            aug_only -= plain_assigned
             for nm in _assigned(s.body + s.orelse) | (_assigned([s.target]) if isinstance(s, ast.For) else set()):
-                env[nm] = self.fresh(nm)
+                cur = env.get(nm)
+                if nm in aug_only and isinstance(cur, ast.Constant) and cur.value is None:
+                    continue
+                sym = self.fresh(nm)
+                if nm in aug_only and isinstance(cur, ast.AST) and not (isinstance(cur, ast.Name) and '@' not in cur.id):
+                    if isinstance(cur, ast.Constant):
+                        t2, p2 = _cmp(sym, ast.Is(), ast.Constant(None))
+                        test2 = ast.Compare(sym, [ast.Is()], [ast.Constant(None)])
+                        extra_conds = extra_conds + ((t2, not p2, test2, test2, test2, False),)
+                env[nm] = sym
             hdr = s.iter if isinstance(s, ast.For) else s.test
             evs = self.record_calls(hdr, st)
-            start = Path(st.conds, (), env, None)
+            start = Path(st.conds + extra_conds, (), env, None)
             body_paths = [bp if bp.outcome is not None else Path(bp.conds, bp.events, bp.env, ('fall',)) for bp in self.block(s.body, [start])]
             # the loop as one event carrying its body summaries; returns / raises inside the body are exits of the function
             ev = ('loop', ctext(self.sx(hdr, st)), s, body_paths)
